@@ -144,6 +144,56 @@ def build_crate(path, mods, runnable):
             f.write("fn main() {\n" + "".join('    ::std::println!("## %s"); %s::run();\n' % (n, n) for n, _ in mods) + "}\n")
 
 
+DECOY_METHODS = """
+    pub fn cmp(&self, _o: &Self) -> ::core::cmp::Ordering { ::core::cmp::Ordering::Equal }
+    pub fn partial_cmp(&self, _o: &Self) -> ::core::option::Option<::core::cmp::Ordering> { ::core::option::Option::None }
+    pub fn eq(&self, _o: &Self) -> ::core::primitive::bool { false }
+    pub fn ne(&self, _o: &Self) -> ::core::primitive::bool { false }
+    pub fn lt(&self, _o: &Self) -> ::core::primitive::bool { false }
+    pub fn le(&self, _o: &Self) -> ::core::primitive::bool { false }
+    pub fn gt(&self, _o: &Self) -> ::core::primitive::bool { false }
+    pub fn ge(&self, _o: &Self) -> ::core::primitive::bool { false }
+    pub fn clone(&self) -> Self { ::std::process::exit(86) }
+    pub fn clone_from(&mut self, _o: &Self) { ::std::process::exit(86) }
+    pub fn hash<HH: ::core::hash::Hasher>(&self, s: &mut HH) { s.write_u8(0xEE) }
+    pub fn fmt(&self, f: &mut ::core::fmt::Formatter<'_>) -> ::core::fmt::Result { f.write_str("<decoy>") }
+    pub fn default() -> Self { ::std::process::exit(86) }
+    pub fn deref(&self) -> &::core::primitive::u8 { &ARR[0] }
+    pub fn deref_mut(&mut self) -> &mut ::core::primitive::u8 { ::std::process::exit(86) }
+    pub fn into(self) -> ::core::primitive::u8 { 0xEE }
+    pub fn from(_x: Self) -> ::core::primitive::u8 { 0xEE }
+    pub fn assert_receiver_is_total_eq(&self) { ::std::process::exit(86) }
+"""
+
+
+def decoys(n):
+    """inherent methods of the user's types called like the trait methods the derive implements: generated code that
+    wrote `self.cmp(other)` instead of `::core::cmp::Ord::cmp(self, other)` would reach these"""
+    TY, TP, CP, LT = n["TY"], n["TP"], n["CP"], n["LT"]
+    heads = ["impl<'%s, %s: Bnd, const %s: UZ> %sS<'%s, %s, %s>" % (LT, TP, CP, TY, LT, TP, CP), "impl<%s: Bnd> %sE<%s>" % (TP, TY, TP),
+             "impl<%s: Bnd> %sT<%s>" % (TP, TY, TP), "impl %sD" % TY, "impl %sU" % TY]
+    return "\n".join("#[cfg(runnable)] #[allow(dead_code)] %s {%s}" % (h, DECOY_METHODS) for h in heads)
+
+
+def macroize(src, idents, tag):
+    """the same item as the output of a macro_rules! macro: every occurrence of one of `idents` (field, variant, method
+    and type-alias names) becomes an `$x:ident` fragment supplied by the caller, so that those tokens carry the hygiene
+    context of the invocation while `#[derive(Educe)]` and the rest come from the macro body"""
+    order = []
+
+    def sub(m):
+        w = m.group(0)
+        if w not in idents:
+            return w
+        if w not in order:
+            order.append(w)
+        return "$x%d" % order.index(w)
+    body = re.sub(r"(?<![\w'#$])(?:r#)?[A-Za-z_]\w*", sub, src)
+    if not order:
+        return src
+    return "macro_rules! mk_%s { (%s) => {\n%s\n} }\nmk_%s!(%s);" % (tag, ", ".join("$x%d:ident" % i for i in range(len(order))), body, tag, ", ".join(order))
+
+
 def module_body(n, k, hostile, names, runnable=True):
     ds = defs(n, k)
     own = set(n.values()) | {n["TY"] + s for s in "SETDU"}
@@ -151,8 +201,14 @@ def module_body(n, k, hostile, names, runnable=True):
     if hostile:
         parts.append(shadow_items(names, own | {"UB", "UZ", "Bnd", "Rec", "ARR", "show", "m_eq", "m_cmp", "m_pcmp", "m_hash", "m_clone", "m_dbg", "run", "Educe"}))
     parts.append("use educe::Educe;")
-    for _, src, _ in ds:
+    for tag, src, _ in ds:
+        if hostile and k % 3 == 2:
+            # (keywords cannot be `ident` fragments; the lifetime and the generic parameters stay in the body)
+            idents = {n[x] for x in ("f1", "f2", "f3", "V1", "V2", "V3")} | {"m_eq", "m_cmp", "m_hash", "m_clone", "m_dbg", "UB"}
+            src = macroize(src, idents - KEYWORDS - {n["TP"], n["CP"], n["LT"]}, "%s%s_%d" % (n["TY"], tag, k))
         parts.append(src)
+    if hostile and runnable:
+        parts.append(decoys(n))
     if runnable:
         parts.append("#[cfg(runnable)] pub fn run() {\n" + "\n".join(r for _, _, r in ds) + "\n}")
     return "\n".join(parts)
